@@ -55,7 +55,11 @@ def strategy(tier):
         if draw(st.sampled_from([False, False, True])):
             from .c11 import time_opts
             opts = draw(time_opts(spec))      # -d / -tod / -t re-derive the per-file time indices
-        return {"spec": spec, "perms": perms, "axes": axes, "opts": opts}
+        T = None
+        if draw(st.sampled_from([False, True])):
+            T = [draw(st.sampled_from([1, 2, 6, 7, 24, 25, 49, 100000])), draw(st.sampled_from(["leadtime", "time", "time"])),
+                 draw(st.sampled_from(["mean", "sum", "max", "min", "change"]))]
+        return {"spec": spec, "perms": perms, "axes": axes, "opts": opts, "T": T}
     return s()
 
 
@@ -110,6 +114,39 @@ def check_api(case, ctx):
                         ctx.fail("C02/permute-entries/api/" + dscheck.fields_label(F),
                                  dict(extra, spec=spec, perms=case["perms"], fields=F, axis=axis, slice=k, input=i),
                                  "re-ordering the dimension entries of the inputs changed the result")
+    # alone-vs-together: what an input contributes at a coordinate is what its own file stores there (with -T: aggregated over
+    # its own series), whatever the other inputs contain - so wherever the joint run keeps a forecast value, it is the value
+    # the input gives when it is read alone with the same dimensions selected explicitly
+    if n_in >= 2 and not spec.get("clim"):
+        import numpy as np
+        import verif.aggregator
+        import verif.data
+        T = case.get("T")
+        kwT = {}
+        if T:
+            kwT = dict(dim_agg_length=T[0], dim_agg_axis=verif.axis.get(T[1]), dim_agg_method=verif.aggregator.get(T[2]))
+            ctx.label("alone-vs-together/-T")
+        ins, _ = mat.mem_inputs(spec)
+        together = verif.data.Data(ins, **dict(mat.data_kwargs(opts), **kwT))
+        for i in range(n_in):
+            ins_i, _ = mat.mem_inputs(spec)
+            alone = verif.data.Data([ins_i[i]], **kwT)       # all of its own dimensions; compared coordinate by coordinate
+            a_t = together.get_scores(verif.field.Fcst(), i, verif.axis.All(), None)
+            a_a = alone.get_scores(verif.field.Fcst(), 0, verif.axis.All(), None)
+            it = [list(alone.times).index(t) for t in together.times]
+            il = [list(alone.leadtimes).index(t) for t in together.leadtimes]
+            isx = [[l.id for l in alone.locations].index(l.id) for l in together.locations]
+            a_a = a_a[it][:, il][:, :, isx]
+            ctx.evals += 1
+            if a_t.shape != a_a.shape:
+                ctx.fail("C02/alone-vs-together/shape", dict(extra, spec=spec, T=T, input=i), "%r together, %r alone" % (a_t.shape, a_a.shape))
+                continue
+            keep = ~np.isnan(a_t)
+            if not np.allclose(a_t[keep], a_a[keep], rtol=1e-6, atol=1e-9, equal_nan=False):
+                bad = np.argwhere(keep & ~np.isclose(a_t, a_a, rtol=1e-6, atol=1e-9))[0]
+                ctx.fail("C02/alone-vs-together/fcst" + ("/-T" if T else ""), dict(extra, spec=spec, T=T, input=i),
+                         "input %d at (time %r, lead %r, location %r): %r when verified with the other inputs, %r when read alone (-T %r)"
+                         % (i, together.times[bad[0]], together.leadtimes[bad[1]], together.locations[bad[2]].id, a_t[tuple(bad)], a_a[tuple(bad)], T))
     for F in menu[:4]:
         vF = [mat.vfield(f) for f in F]
         for i in range(n_in):
